@@ -165,7 +165,7 @@ class function_call:
 
 @contract(f'{CP}:Compiler._function', 'coalesce')
 class function_coalesce:
-    props = ['C05', 'C04']
+    props = ['C05', 'C04', 'C09']       # C09: coalesce is never folded (its value is decided per row by EvalCoalesce, NULL-aware and not truthiness-based)
     params = {'self': COMPILER, 'node': Rec('Function', attrs=dict(fname=Str(['coalesce']), operands=ListOf(Dyn(('obj',)), maxlen=3)))}
     requires = lambda node: node.fname == 'coalesce'
     pure_callees = {f'{CP}:Compiler._compile': (compiled_of, ['CompilationError'])}
@@ -331,7 +331,7 @@ def placeholders_of(query):
 
 @contract(f'{CP}:Compiler.compile', 'positional')
 class compile_positional:
-    props = ['C09']
+    props = ['C09', 'C05']
     params = {'self': COMPILER, 'query': QUERY, 'parameters': ListOf(Dyn(), maxlen=3)}
     method_results = {'walk': ListOf(PH, maxlen=3)}
     callees = _callee_compile('compile')
@@ -340,7 +340,11 @@ class compile_positional:
     native = False
     timeout = 20000
     assumes = ["ATTRS_PRESENT", "METHODS_PRESENT", "the tree walk yields every placeholder node once (precondition); parameters is a list (the tuple and named-placeholder forms are bounded: h09)"]
-    raises = {'CompilationError': None, 'ProgrammingError': None, 'TypeError': None}
+    # a statement whose placeholders are all positional (fresh, or numbered by an earlier compilation of the same parsed statement) is
+    # rejected only for a wrong number of parameters (or by the statement compiler proper): never as `mixed`, never with TypeError
+    raises = {'CompilationError': lambda query: rejected(query),
+              'ProgrammingError': lambda query, parameters: len(placeholders_of(query)) > 0 and len(placeholders_of(query)) != len(parameters)}
+    raises_iff = False
     loops = {0: dict(fields=['name'], inv=lambda _seq, _i: all(_seq[j].name == j for j in range(_i)))}
     ensures = [('parameters-bound', lambda self, parameters: self.parameters == parameters),
                ('one-parameter-per-placeholder', lambda query, parameters: len(placeholders_of(query)) == 0 or len(placeholders_of(query)) == len(parameters)),
